@@ -509,3 +509,80 @@ def strip_guarded(src, guard="KAUZLARI_SYMPLER_VERIF"):
     # remove the #endif that closes a guard whose #else branch we kept
     txt = re.sub(r"//__verif_else__(.*?)#\s*endif", lambda m: m.group(1), txt, flags=re.S)
     return txt
+
+
+# ---------------------------------------------------------------- imperative blocks -> SSA let-chains
+
+def assigned_vars(stmts):
+    out = []
+    for s in stmts:
+        k = s[0]
+        if k == "assign" and s[1][0] == "id":
+            if s[1][1] not in out:
+                out.append(s[1][1])
+        elif k == "decl" and s[3] is not None:
+            pass            # a local: not part of the state
+        elif k == "block":
+            for v in assigned_vars(s[1]):
+                if v not in out:
+                    out.append(v)
+        elif k == "if":
+            for br in (s[2], s[3]):
+                if br is not None:
+                    for v in assigned_vars([br]):
+                        if v not in out:
+                            out.append(v)
+    return out
+
+
+def ssa_block(em, stmts, state, indent="  ", bool_vars=()):
+    """Lean text: a chain of `let` rebinding the variables of `state` (list of names, all in em.env as themselves),
+    ending in the tuple of the state.  Supported: assign (=, +=, -=) to state variables or new locals, decl, if/else-if/else,
+    blocks.  `break`/`return` are not handled here (the caller models the loop exit)."""
+    lines = []
+
+    def tup(vs):
+        return vs[0] if len(vs) == 1 else "(" + ", ".join(vs) + ")"
+
+    def emit_rhs(name, e):
+        if name in bool_vars:
+            return "decide %s" % em.cond(e)
+        return em.emit(e)
+
+    def go(ss, ind):
+        out = []
+        for s in ss:
+            k = s[0]
+            if k == "block":
+                out += go(s[1], ind)
+            elif k == "decl":
+                if s[3] is None:
+                    continue
+                em.env[s[2]] = s[2]
+                out.append("%slet %s := %s" % (ind, s[2], emit_rhs(s[2], s[3])))
+            elif k == "assign":
+                if s[1][0] != "id":
+                    raise TranslateError("ssa: assignment to %r" % (s[1],))
+                name = s[1][1]
+                em.env.setdefault(name, name)
+                rhs = s[3] if s[2] == "=" else ("bin", s[2][0], s[1], s[3])
+                out.append("%slet %s := %s" % (ind, name, emit_rhs(name, rhs)))
+            elif k == "if":
+                vs = assigned_vars([s])
+                if not vs:
+                    continue
+                def branch(b, ind2):
+                    if b is None:
+                        return "%s%s" % (ind2, tup(vs))
+                    body = go([b], ind2)
+                    return "\n".join(body + ["%s%s" % (ind2, tup(vs))])
+                txt = "%slet %s :=\n%s  if %s then\n%s\n%s  else\n%s" % (ind, tup(vs), ind, em.cond(s[1]), branch(s[2], ind + "    "), ind, branch(s[3], ind + "    "))
+                out.append(txt)
+            elif k in ("expr",):
+                continue
+            else:
+                raise TranslateError("ssa: statement %s not supported" % k)
+        return out
+    lines = go(stmts, indent)
+    lines.append("%s%s" % (indent, tup(state)))
+    return "\n".join(lines)
